@@ -245,6 +245,7 @@ impl DnsHandle for Conn {
                 let serial = l.serial;
                 l.serial += 1;
                 l.xch.push(Xch { start_ms, srv, proto, outcome: oc, lat, over: None, end_ms: None, key, serial });
+                l.evs.push((9, serial, 0)); // harness-internal marker: exchange `serial` started here
                 (oc, lat, l.xch.len() - 1, serial)
             });
             let st = Instant::now();
@@ -356,7 +357,8 @@ struct LkObs {
 /// scheduling delays, timer overshoot, start-up cost (the pool is otherwise always waiting
 /// for one of the two)
 fn unexplained(fin: f64, xch: &[Xch], sleeps: &[(u64, f64, f64)]) -> f64 {
-    let mut iv: Vec<(f64, f64)> = xch.iter().map(|x| (x.start_ms, (x.start_ms + x.lat as f64).min(fin))).collect();
+    // only exchanges that completed: a dropped one was cut short by the member that ended the round
+    let mut iv: Vec<(f64, f64)> = xch.iter().filter(|x| x.over.is_some()).map(|x| (x.start_ms, (x.start_ms + x.lat as f64).min(fin))).collect();
     iv.extend(sleeps.iter().map(|s| (s.2, (s.2 + s.0 as f64).min(fin))));
     iv.sort_by(|a, b| a.partial_cmp(b).unwrap());
     let mut covered = 0.0;
@@ -377,7 +379,7 @@ fn run_pool(c: &PoolCase) -> Vec<LkObs> {
     });
     let rt = tokio::runtime::Builder::new_current_thread().enable_time().build().unwrap();
     let pool = build_pool(c);
-    rt.block_on(tokio::time::sleep(Duration::from_millis(2)));
+    rt.block_on(async { tokio::time::sleep(Duration::from_millis(2)).await });
     let mut out = vec![];
     rt.block_on(async {
         for _ in 0..c.lookups {
@@ -411,18 +413,19 @@ fn gen_pool(r: &mut Rng) -> (PoolCase, &'static str) {
     let timeout = *r.pick(&[499u64, 699, 699, 899, 1199]);
     let nconc = *r.pick(&[0usize, 1, 1, 1, 2, 2, 2, 3, 4]);
     let strat = *r.pick(&[0u8, 0, 0, 1, 1, 2]);
-    // distinct latency per server
-    let mut lats = vec![100u64, 200, 300, 400];
-    for i in (1..lats.len()).rev() {
-        let j = r.below(i as u64 + 1) as usize;
-        lats.swap(i, j);
-    }
     // a case exercises either Busy/backoff or connection-closed/reconnect (timing residues, see header)
     let family = match r.below(10) {
         0..=3 => "busy",
         4..=5 => "closed",
         _ => "plain",
     };
+    // distinct latency per server; resets take 50 ms, so with resets the grid starts at 200
+    // (two resets in a row = 100 ms never tie with an exchange of another server)
+    let mut lats = if family == "closed" { vec![200u64, 300, 400, 500] } else { vec![100u64, 200, 300, 400] };
+    for i in (1..lats.len()).rev() {
+        let j = r.below(i as u64 + 1) as usize;
+        lats.swap(i, j);
+    }
     let mut srvs = vec![];
     for i in 0..ns {
         let lat = lats[i];
@@ -471,6 +474,10 @@ fn gen_pool(r: &mut Rng) -> (PoolCase, &'static str) {
             };
             if family == "closed" && r.chance(1, 3) {
                 v.insert(r.below(v.len() as u64 + 1) as usize, (O_CLOSED, 50));
+            }
+            // the entry that repeats is not a reset
+            if v.last().map(|x| x.0) == Some(O_CLOSED) {
+                v.push(*r.pick(&[(O_ANS, lat), (O_IO, lat)]));
             }
             v
         };
@@ -598,6 +605,17 @@ fn pool_oracle(c: &PoolCase, li: usize, o: &LkObs) -> (Option<String>, Option<St
             }
         }
     }
+    // (2b) a truncated / case-mismatched UDP reply of a TCP-capable server: the next exchange with
+    //      that server, if there is one, is over TCP
+    for (k, x) in o.xch.iter().enumerate() {
+        if x.proto == 0 && x.over.is_some() && (x.outcome == O_TRUNC || x.outcome == O_CASE) && c.srvs[x.srv].tcp {
+            if let Some(y) = o.xch.iter().skip(k + 1).find(|y| y.srv == x.srv) {
+                if y.proto == 0 {
+                    return (Some(format!("lookup {li}: server {} answered truncated over UDP and was asked again over UDP", x.srv)), None);
+                }
+            }
+        }
+    }
     // an NXDOMAIN result needs a trusted NXDOMAIN seen, or exhaustion (checked above)
     // (3) a healthy server (answers on every configured protocol, TCP configured) exists and nobody
     //     ends the search with a final error: the result is an answer unless the deadline was reached
@@ -615,6 +633,17 @@ fn pool_oracle(c: &PoolCase, li: usize, o: &LkObs) -> (Option<String>, Option<St
         if !deadline {
             return (Some(format!("lookup {li}: a healthy server exists but the lookup failed with result {} after {:.0} ms", o.res, o.fin_ms)), None);
         }
+    }
+    // (3a) busy back-pressure: a server that is busy at most 4 times and then answers, while nobody
+    //      truncates (the protocol never changes) and nobody ends the search: an answer unless deadline
+    let no_requeue = !c.srvs.iter().any(|s| s.su.iter().chain(s.st.iter()).any(|x| x.0 == O_TRUNC || x.0 == O_CASE || x.0 == O_CLOSED));
+    let busy_then_answer = |v: &Vec<(u8, u64)>| {
+        let k = v.iter().take_while(|x| x.0 == O_BUSY).count();
+        k >= 1 && k <= 4 && k < v.len() && v[k..].iter().all(|x| x.0 == O_ANS)
+    };
+    let recovering = c.srvs.iter().any(|s| if s.udp { busy_then_answer(&s.su) } else { s.tcp && busy_then_answer(&s.st) });
+    if recovering && no_requeue && !any_final && !answered && !deadline && li == 0 {
+        return (Some(format!("lookup {li}: a server is busy at most 4 times and then answers, but the lookup failed with result {} after {:.0} ms", o.res, o.fin_ms)), None);
     }
     // (3b) the same for a healthy server that only speaks UDP
     let healthy_udp = c.srvs.iter().any(|s| s.udp && !s.tcp && s.su.iter().all(|x| x.0 == O_ANS));
@@ -672,7 +701,7 @@ fn pool_case(seed: u64, index: u64, c: PoolCase, family: &str) -> CaseOut {
         "CSkip".to_string()
     } else {
         let srvs = coq_list(c.srvs.iter().map(|s| ((s.udp as u8) | ((s.tcp as u8) << 1) | ((s.trust as u8) << 2)).to_string()));
-        let sc = |v: &Vec<(u8, u64)>| coq_list(v.iter().map(|(o, l)| format!("({o},{l})")));
+        let sc = |v: &Vec<(u8, u64)>| coq_list(v.iter().map(|(o, l)| (l * 16 + *o as u64).to_string()));
         let scripts = coq_list(c.srvs.iter().map(|s| format!("({},{})", sc(&s.su), sc(&s.st))));
         let lks = coq_list(obs.iter().map(|o| {
             let perm = if c.strat == 2 { coq_list(perm_of(c.srvs.len(), &o.xch).iter().map(|x| x.to_string())) } else { "[]".to_string() };
@@ -682,7 +711,7 @@ fn pool_case(seed: u64, index: u64, c: PoolCase, family: &str) -> CaseOut {
                 o.res,
                 o.who,
                 o.fin_ms.floor() as u64,
-                coq_list(canon_xch(&o.xch).iter().map(|(s, p)| format!("({s},{p})"))),
+                coq_list(canon_xch(&o.xch).iter().map(|(s, p)| (s * 2 + *p as usize).to_string())),
                 coq_list(o.sleeps.iter().map(|s| s.0.to_string()))
             )
         }));
@@ -740,7 +769,7 @@ fn run_dedup(callers: &[Caller]) -> DedupObs {
     });
     let rt = tokio::runtime::Builder::new_current_thread().enable_time().build().unwrap();
     let pool = build_pool(&c);
-    rt.block_on(tokio::time::sleep(Duration::from_millis(2)));
+    rt.block_on(async { tokio::time::sleep(Duration::from_millis(2)).await });
     let t0 = Instant::now();
     LOG.with(|l| l.borrow_mut().t0 = Some(t0));
     let results: Vec<(Option<usize>, f64)> = rt.block_on(async {
@@ -819,13 +848,30 @@ fn dedup_text(cs: &[Caller]) -> String {
 }
 
 fn dedup_oracle(cs: &[Caller], o: &DedupObs) -> (Option<String>, Option<String>) {
-    // a creator = caller at whose arrival an exchange for its key started
-    let creator_cancelled = cs.iter().enumerate().any(|(i, c)| {
-        c.cancel_at.is_some()
-            && o.got[i].is_none()
-            && o.xch.iter().any(|x| x.key == c.key && x.start_ms >= o.arrived[i] - 1.0 && x.start_ms < o.arrived[i] + 15.0)
-    });
-    let known = if creator_cancelled { Some("C18-dedup-creator-cancel".to_string()) } else { None };
+    // creator of exchange #r = the caller whose arrival immediately precedes its start in the event log
+    let mut creator: BTreeMap<usize, usize> = BTreeMap::new();
+    let mut last_arrival = None;
+    for (k, a, _) in &o.evs {
+        match k {
+            0 => last_arrival = Some(*a),
+            9 => {
+                if let Some(c) = last_arrival {
+                    creator.insert(*a, c);
+                }
+            }
+            _ => {}
+        }
+    }
+    // known class: the creator of the earlier exchange was cancelled before the later one started
+    let known_for = |x: &Xch, y: &Xch| -> Option<String> {
+        let c = *creator.get(&x.serial)?;
+        let at = cs[c].cancel_at?;
+        if o.got[c].is_none() && (at as f64) < y.start_ms + 10.0 {
+            Some("C18-dedup-creator-cancel".to_string())
+        } else {
+            None
+        }
+    };
     let end_of = |x: &Xch| x.end_ms.unwrap_or(f64::INFINITY);
     // one upstream exchange per distinct in-flight query
     for (a, x) in o.xch.iter().enumerate() {
@@ -836,7 +882,7 @@ fn dedup_oracle(cs: &[Caller], o: &DedupObs) -> (Option<String>, Option<String>)
                         "two upstream exchanges in flight for the same query k{}: #{} [{:.0},{:.0}] and #{} started at {:.0}",
                         x.key, x.serial, x.start_ms, end_of(x), y.serial, y.start_ms
                     )),
-                    known,
+                    known_for(x, y),
                 );
             }
         }
@@ -854,7 +900,7 @@ fn dedup_oracle(cs: &[Caller], o: &DedupObs) -> (Option<String>, Option<String>)
                 }
                 for y in &o.xch {
                     if y.key == c.key && y.start_ms + 10.0 < o.arrived[i] && o.arrived[i] + 10.0 < end_of(y) && y.end_ms.is_some() && y.serial != serial {
-                        return (Some(format!("caller {i} arrived while exchange #{} for its query was in flight but received #{}", y.serial, serial)), known);
+                        return (Some(format!("caller {i} arrived while exchange #{} for its query was in flight but received #{}", y.serial, serial)), known_for(y, x));
                     }
                 }
             }
@@ -887,7 +933,7 @@ fn dedup_case(seed: u64, index: u64, cs: Vec<Caller>, kind: &str) -> CaseOut {
     } else {
         format!(
             "CDedup {} {} {}",
-            coq_list(o.evs.iter().map(|(k, a, b)| format!("({k},({a},{b}))"))),
+            coq_list(o.evs.iter().filter(|e| e.0 != 9).map(|(k, a, b)| format!("({k},({a},{b}))"))),
             o.xch.len(),
             coq_list(got.iter().map(|(c, s)| format!("({c},{s})")))
         )
@@ -896,7 +942,7 @@ fn dedup_case(seed: u64, index: u64, cs: Vec<Caller>, kind: &str) -> CaseOut {
         "runs={} got=[{}] events=[{}] late={:.1}",
         o.xch.len(),
         o.got.iter().enumerate().map(|(i, g)| format!("c{}:{}", i, match g { Some(usize::MAX) => "err".to_string(), Some(s) => format!("#{s}"), None => "cancelled".to_string() })).collect::<Vec<_>>().join(" "),
-        o.evs.iter().map(|(k, a, b)| match k { 0 => format!("arr c{a} k{b}"), 1 => format!("done #{a}"), 2 => format!("ret c{a}"), _ => format!("cancel c{a}") }).collect::<Vec<_>>().join(", "),
+        o.evs.iter().filter(|e| e.0 != 9).map(|(k, a, b)| match k { 0 => format!("arr c{a} k{b}"), 1 => format!("done #{a}"), 2 => format!("ret c{a}"), _ => format!("cancel c{a}") }).collect::<Vec<_>>().join(", "),
         o.late
     );
     CaseOut {
@@ -965,7 +1011,9 @@ fn case(seed: u64, index: u64) -> CaseOut {
 }
 
 fn main() {
-    quiet_panics();
+    if std::env::var("C18_LOUD").is_err() {
+        quiet_panics();
+    }
     let args = parse_args();
     if let Some((seed, index)) = args.replay {
         let c = case(seed, index);
